@@ -199,6 +199,8 @@ func (x *multiRun) do(op string) string {
 			c := mconf{id: w[1], rom: w[2], seed: uint64(atoi(w[3])), audio: w[4] == "1"}
 			if strings.HasPrefix(w[2], "synth:") {
 				c.rom = synthRom(uint64(atoi(strings.TrimPrefix(w[2], "synth:"))))
+			} else if strings.HasSuffix(w[2], ":") && craftedRoms[w[2]] != nil {
+				c.rom = craftedRom(w[2])
 			} else {
 				c.rom = filepath.Join(romDir(), w[2])
 			}
@@ -270,6 +272,68 @@ func (x *multiRun) do(op string) string {
 				sc = p.Speakers.Cleanups
 			}
 			return fmt.Sprintf("frames=%d display-cleanups=%d speaker-cleanups=%d", p.Display.Frames, p.Display.Cleanups, sc)
+		case "tphase": // tphase <id> <counter4> <tima2> <tac2> <frames>: the timer is put into a chosen phase before the
+			// first frame; frames stepped by the real runFrame must equal frames stepped by the documented loop
+			c := mconfs[w[1]]
+			var ds [2]string
+			for k := 0; k < 2; k++ {
+				in := newInst(c)
+				p := in.gb.VerifParts()
+				p.Timer.WriteTAC(uint8(unhex(w[4])))
+				p.Timer.WriteTMA(0)
+				p.Timer.WriteTIMA(uint8(unhex(w[3])))
+				p.Timer.VerifSetCounter(uint16(unhex(w[2])))
+				p.Interrupts.WriteIF(0)
+				for f := 0; f < atoi(w[5]); f++ {
+					in.stepFrame(k == 0)
+				}
+				ds[k] = in.digest()
+			}
+			if ds[0] == ds[1] {
+				return "same"
+			}
+			return "differ runFrame=" + ds[0] + " documented-loop=" + ds[1]
+		case "after": // after <idA> <k> <idB> <frames>: A runs through Run() (closing after k frames, so Cleanup ran), THEN B
+			ca, cb := mconfs[w[1]], mconfs[w[3]]
+			gb := gameboy.New(gameboy.Config{RomFilename: ca.rom, DisableVideoOutput: false, DisableAudioOutput: !ca.audio})
+			gb.VerifParts().Display.CloseAfter = atoi(w[2])
+			gb.Run(context.Background())
+			return soloDigest(cb, atoi(w[4]), false)
+		case "serlong": // serlong <id> <frames>: the serial ROM through gameboy.New's writer: every byte, in order
+			in := newInst(mconfs[w[1]])
+			frames := atoi(w[2])
+			for f := 0; f < frames; f++ {
+				in.stepFrame(true)
+			}
+			b := in.serial.Bytes()
+			inOrder := true
+			for i, v := range b {
+				if v != byte(i) {
+					inOrder = false
+					break
+				}
+			}
+			want := 17556 * frames / 7
+			return fmt.Sprintf("serial-complete=%s in-order=%s", b01(len(b) >= want-2 && len(b) <= want+2), b01(inOrder))
+		case "rundeadline": // rundeadline <id> <ms>: the context ends by DEADLINE (0 = already expired), not by cancel()
+			c := mconfs[w[1]]
+			gb := gameboy.New(gameboy.Config{RomFilename: c.rom, DisableVideoOutput: false, DisableAudioOutput: true})
+			p := gb.VerifParts()
+			p.Display.CloseAfter = 3000 // safety stop for an implementation that ignores the deadline
+			ms := atoi(w[2])
+			ctx, cancel := context.WithDeadline(context.Background(), time.Now().Add(time.Duration(ms)*time.Millisecond))
+			defer cancel()
+			var atDone int
+			done := make(chan struct{})
+			go func() {
+				<-ctx.Done()
+				atDone = p.Display.Frames
+				close(done)
+			}()
+			gb.Run(ctx)
+			<-done
+			extra := p.Display.Frames - atDone
+			return fmt.Sprintf("extra-frames-le-1=%s display-cleanups=%d", b01(extra <= 1 && extra >= 0), p.Display.Cleanups)
 		case "runcancel":
 			c := mconfs[w[1]]
 			gb := gameboy.New(gameboy.Config{RomFilename: c.rom, DisableVideoOutput: false, DisableAudioOutput: true})
@@ -354,6 +418,39 @@ func synthRom(seed uint64) string {
 	return p
 }
 
+// small hand-written 32 KiB ROM-only images (code at the entry point 0100, handler bytes at 0040)
+var craftedRoms = map[string][]byte{
+	// spins on JR -2 (touches no register)
+	"loop:": {0x18, 0xfe},
+	// waits a little, executes STOP with the LCD on, then would spin
+	"stop:": {0x06, 0x40, 0x05, 0x20, 0xfd, 0x10, 0x00, 0x18, 0xfe},
+	// XOR A; loop: LDH (01),A; INC A; JR loop  -- writes 00 01 02 ... to SB for ever
+	"serial:": {0xaf, 0xe0, 0x01, 0x3c, 0x18, 0xfb},
+	// NOP x3; loop: EI; JR loop -- every frame ends between an EI and the instruction after it
+	"eidense:": {0x00, 0x00, 0x00, 0xfb, 0x18, 0xfd},
+	// DI; IE=01 (VBlank is requested at power-on); HALT with IME=0 and a pending request, for ever (halt bug armed)
+	"haltdense:": {0xf3, 0x3e, 0x01, 0xe0, 0xff, 0x76, 0x76, 0x76, 0x76},
+	// sensitive to state inherited from elsewhere: first byte not idempotent (INC B), IE set WITHOUT EI (a handler
+	// at 0040 marks D), channel 1 triggered without NR10 ever being written, NR52 and NR10 read back into E and H
+	"sens:": {0x04, 0x3e, 0x01, 0xe0, 0xff, 0x00, 0x00,
+		0x3e, 0x80, 0xe0, 0x26, 0x3e, 0xf0, 0xe0, 0x12, 0x3e, 0xff, 0xe0, 0x13, 0x3e, 0x87, 0xe0, 0x14,
+		0x0e, 0x40, 0x0d, 0x20, 0xfd, 0xf0, 0x26, 0x5f, 0xf0, 0x10, 0x67, 0x0c, 0x18, 0xfd},
+}
+
+func craftedRom(kind string) string {
+	dir := filepath.Join(os.TempDir(), "verif-loop")
+	if d := os.Getenv("VERIF_SYNTH_DIR"); d != "" {
+		dir = filepath.Join(d, "verif-loop")
+	}
+	os.MkdirAll(dir, 0o755)
+	p := filepath.Join(dir, strings.TrimSuffix(kind, ":")+".gb")
+	rom := make([]byte, 0x8000)
+	copy(rom[0x100:], craftedRoms[kind])
+	copy(rom[0x40:], []byte{0x16, 0x77, 0xc9}) // LD D,77; RET
+	os.WriteFile(p, rom, 0o644)
+	return p
+}
+
 func multiSoloMain(args []string) {
 	c := mconf{rom: args[0], seed: uint64(atoi(args[1])), audio: args[2] == "1"}
 	fmt.Println(soloDigest(c, atoi(args[3]), false))
@@ -366,10 +463,58 @@ func multiReplay(c *ctx, ops []string) {
 	}
 }
 
+// the single TIMA overflow of a frame placed on chosen machine cycles of the frame (first, last, around the
+// increments), on a ROM that touches nothing: runFrame against the documented loop
+func (x *multiRun) timerPhases(nk int) {
+	c := x.c
+	x.do("rom loop loop: 0 0")
+	ks := []int{0, 1, 2, 255, 256, 8777, 17553, 17554, 17555}
+	for len(ks) < 9+nk {
+		ks = append(ks, c.rng.intn(17556))
+	}
+	for _, K := range ks {
+		n := K/256 + 1
+		k1 := K % 256
+		counter := (1024-4*(k1+1))%1024 + 1024*c.rng.intn(64)
+		x.do(fmt.Sprintf("tphase loop %04x %02x 04 2", counter&0xffff, 256-n))
+		c.class(fmt.Sprintf("tphase/%d", K))
+	}
+}
+
+// a crafted ROM: first solo run = expectation, then the documented loop by hand
+func (x *multiRun) craftedManual(id, kind string, frames int) {
+	x.do(fmt.Sprintf("rom %s %s 0 0", id, kind))
+	d := soloDigest(mconfs[id], frames, false)
+	x.do(fmt.Sprintf("expect %s %d %s", id, frames, d))
+	x.do(fmt.Sprintf("manual %s %d", id, frames))
+	x.c.class("crafted/" + kind + "/" + d)
+}
+
 func multiGen(c *ctx) {
 	x := &multiRun{c: c}
 	prop := os.Getenv("VERIF_PROP")
 	x.do("reset")
+	// other properties borrow the parts of this mode that go through gameboy.New / runFrame
+	switch prop {
+	case "C12":
+		nk := 12
+		if c.thorough() {
+			nk = 400
+		}
+		x.timerPhases(nk)
+		return
+	case "C13", "C14":
+		x.craftedManual("stop", "stop:", 4)
+		x.craftedManual("loop", "loop:", 4)
+		return
+	case "C23":
+		x.do("rom ser serial: 0 0")
+		for _, f := range []int{1, 2, 5} {
+			x.do(fmt.Sprintf("serlong ser %d", f))
+			c.class(fmt.Sprintf("serlong/%d", f))
+		}
+		return
+	}
 	var roms []string
 	filepath.Walk(romDir(), func(p string, info os.FileInfo, err error) error {
 		if err == nil && !info.IsDir() && strings.HasSuffix(p, ".gb") && info.Size() >= 0x8000 && !strings.Contains(p, "bootrom_dumper") {
@@ -391,7 +536,8 @@ func multiGen(c *ctx) {
 	pick := map[string]bool{}
 	for _, must := range []string{"blargg/cpu_instrs/cpu_instrs.gb", "blargg/dmg_sound/dmg_sound.gb", "blargg/oam_bug/oam_bug.gb", "rtc3test/rtc3test.gb",
 		"blargg/halt_bug.gb", "mts-20221022-1430-8d742b9/acceptance/timer/rapid_toggle.gb", "mts-20221022-1430-8d742b9/acceptance/timer/tima_reload.gb",
-		"mts-20221022-1430-8d742b9/emulator-only/mbc1/ram_64kb.gb", "mts-20221022-1430-8d742b9/emulator-only/mbc5/rom_512kb.gb"} {
+		"mts-20221022-1430-8d742b9/emulator-only/mbc1/ram_64kb.gb", "mts-20221022-1430-8d742b9/emulator-only/mbc5/rom_512kb.gb",
+		"blargg/dmg_sound/rom_singles/04-sweep.gb", "blargg/dmg_sound/rom_singles/01-registers.gb"} {
 		pick[must] = true
 	}
 	for len(pick) < nRoms && len(pick) < len(roms) {
@@ -433,6 +579,25 @@ func multiGen(c *ctx) {
 				ramUsers = append(ramUsers, id)
 			}
 		}
+		// an instance created AFTER another one ran through Run() and was cleaned up (whatever the first left in its
+		// CPU at the moment it stopped - an EI not yet effective, the halt bug armed - or in its sound unit)
+		x.do("rom sens sens: 0 0")
+		x.do(fmt.Sprintf("expect sens %d %s", frames, soloDigest(mconfs["sens"], frames, false)))
+		x.do("rom eid eidense: 0 0")
+		x.do("rom hbd haltdense: 0 0")
+		for _, a := range []string{"eid", "hbd"} {
+			for k := 1; k <= 2; k++ {
+				x.do(fmt.Sprintf("after %s %d sens %d", a, k, frames))
+				c.class(fmt.Sprintf("after/%s/%d", a, k))
+			}
+		}
+		for _, id := range ramUsers {
+			if strings.Contains(mconfs[id].rom, "dmg_sound") {
+				x.do(fmt.Sprintf("after %s 6 sens %d", id, frames))
+				x.do(fmt.Sprintf("pair %s sens %d ab-fine", id, frames))
+				c.class("after/sound/" + id)
+			}
+		}
 		for i := 0; i+1 < len(ramUsers); i++ {
 			x.do(fmt.Sprintf("pair %s %s %d %s", ramUsers[i], ramUsers[i+1], frames, []string{"ab", "ba-fine"}[i%2]))
 			c.class("pair/ram/" + ramUsers[i] + "/" + ramUsers[i+1])
@@ -465,7 +630,14 @@ func multiGen(c *ctx) {
 			kf := 1 + c.rng.intn(6)
 			x.do(fmt.Sprintf("runclose %s %d", id, kf))
 			x.do(fmt.Sprintf("runcancel %s %d", id, 1+c.rng.intn(40)))
+			x.do(fmt.Sprintf("rundeadline %s %d", id, []int{0, 1 + c.rng.intn(40)}[k/3%2]))
 			c.class(fmt.Sprintf("run/%s/%d", id, kf))
 		}
+		nk := 6
+		if c.thorough() {
+			nk = 200
+		}
+		x.timerPhases(nk)
+		x.craftedManual("stop", "stop:", 4)
 	}
 }
